@@ -127,6 +127,21 @@ def main():
                 res.append("pending")
             except BaseException as e:  # noqa
                 res.append(type(e).__name__)
+        # the SAME dictionary object, changed in place by the caller, submitted once more AFTER the earlier calls have finished (they hold
+        # a reference to it): judged on its new content
+        if pc is not None and o.get("percall_then") is not None and st2 == "ok" and all(x == "ok" for x in res):
+            pc.clear()
+            pc.update(concrete_rd(o["percall_then"], work))
+            st3, v3 = timed(lambda: exe.submit(fn, 1, resource_dict=pc), 10)
+            out["submit3"] = None if st3 == "ok" else (type(v3).__name__ if st3 == "exc" else "TIMEOUT")
+            if st3 == "ok":
+                try:
+                    r3 = v3.result(timeout=o.get("result_timeout", 6))
+                    out["result3"] = "ok" if (r3 == 2 or (isinstance(r3, list) and all(x == 2 for x in r3))) else "wrong:%r" % (r3,)
+                except cf.TimeoutError:
+                    out["result3"] = "pending"
+                except BaseException as e:  # noqa
+                    out["result3"] = type(e).__name__
         out["result"] = "ok" if all(x == "ok" for x in res) and st2 == "ok" else next((x for x in res if x != "ok"), "second submit refused")
         out["results"] = res
     st, v = timed(lambda: exe.shutdown(wait=True), o.get("shutdown_timeout", 6))
